@@ -36,10 +36,19 @@
   `add_*` calls that succeeded, in call order, by section (`bodyOf`), which is — record for record —
   the `view` of the log (`BodyView`: owner case-folded, TTL as `Ttl::from` stores it).
 
+  End to end: `C05_end_to_end` — for unsigned requests that a loaded zone answers, every decoding of
+  the response octets (`specDecodeMsg`) has the RCODE, AA and the three sections of `specResolve` on
+  the zone the catalog selects (sections in order, names up to ASCII case; the additional section
+  followed by the OPT record iff the request had one); hypotheses: the API's guarantees (`CfgWF`,
+  16-bit payload size), the selected zone built through the zone API, and `NoTruncation`.
+  `C05_end_to_end_signed` is the same for authenticated TSIG-signed requests (the additional section
+  then ends with the OPT record iff requested and the TSIG record).
+
   The selection of the zone (longest suffix match in the catalog, `handle_query`) is C22 + C07; the
-  lifting from the operation log to the decoded octets is C12 (the writer serialises what it was
-  given); both are checked end to end on every run by the `audans` oracle, which decodes the real
-  response with `specDecodeMsg` and compares it with `specResolve` as multisets.
+  lifting from the layout to the decoded octets is C12 (`finish_decodes_content`: the writer
+  serialises what it was given); the whole chain is also checked on every run by the `audans`
+  oracle, which decodes the real response with `specDecodeMsg` and compares it with `specResolve`
+  as multisets.
 -/
 import QV.Proofs.ServerAnswer
 import QV.Proofs.ServerAnswerCap
@@ -515,5 +524,236 @@ theorem C05_log_is_content (z : Zone.Zone) (hz : ServerSafety.ZoneOK z) (qname :
       BodyView (bodyOf b0 (handleNonAxfrQueryL z qname qtype tr ⟨w, []⟩).2.log)
         (view (handleNonAxfrQueryL z qname qtype tr ⟨w, []⟩).2.log)) :=
   ⟨good_handleNonAxfrQueryL z hz qname hq qtype tr hsub w b0 hG hh, bodyOf_qs _ _, fun hb => bodyOf_view b0 hb _⟩
+
+open QV.ServerScan QV.ServerContent in
+/-- **C05 end to end, on the decoded response.**  For every configuration the API can hold
+    (`CfgWF`), transport, buffer and request whose scan ends with "a loaded zone answers" (no TSIG):
+    the request has one question `q`, the catalog's longest-suffix match for its QNAME and QCLASS is a
+    loaded zone `ze`, and — if that zone was built through the zone API and no writer call of the
+    answering phase reported `Truncation` — **every** decoding `d` of the response octets under the
+    independent message decoder has
+    * RCODE (4 bits) and AA of `specResolve` on that zone, QNAME (case-folded) and QTYPE; TC clear;
+    * answer and authority sections equal to `specResolve`'s, record for record and in order: owner
+      equal up to ASCII case, TYPE, CLASS, TTL (as `Ttl::from` stores it), RDATA octet for octet for
+      types without compressible names (`RRMatch`);
+    * additional section = `specResolve`'s, followed by the OPT record iff the scan reached an OPT.
+    The chain: `hwc_answer_state` (scan ⇒ `handle_query` on the explicit scan state; srvscan's
+    `scanAndDispatch_answer`), `handleQuery_loaded` (catalog ⇒ `handle_non_axfr_query` on `ze.zone`),
+    `C05` (view of the log = `specResolve`), `clay_handleNonAxfrQueryL` (log = content layout and
+    header octets of the final writer), the writer's `finish_decodes_content` (C12: layout ⇒ decoding). -/
+theorem C05_end_to_end (cfg : Cfg) (hcfg : ServerSafety.CfgWF cfg) (tr : Transport) (now bufLen : Nat) (req : Bytes)
+    (hbuf : minBuf tr cfg.payload ≤ bufLen) (hpay : 512 ≤ cfg.payload) (hp16 : cfg.payload ≤ 65535)
+    (hreq : req.size ≤ Rdata.USIZE_MAX)
+    (hv : (Spec.Server.specScanWith (catKind cfg) cfg.payload req).verdict = .answer)
+    (b : Bytes) (hb : handleMessage cfg tr now bufLen req = .ok (some b)) :
+    ∃ (q : Spec.DQuestion) (qn : WName) (e : Catalog.Entry Unit) (ze : ZoneEntry),
+      (Spec.Server.specScanWith (catKind cfg) cfg.payload req).question = some q ∧
+      WName.parse q.qname = some (qn, []) ∧
+      Catalog.lookup (mkCatalog cfg.zones) qn.labels q.qclass = some e ∧ e.kind = .Loaded ∧
+      cfg.zones[e.zone]? = some ze ∧
+      ∀ (eqv : Eqv) (apex : NameL.Name) (cls : Nat) (glue : GluePolicy) (rs : List Rec),
+        ze.zone = build eqv (Zone.new apex cls glue) rs → Folded apex →
+        NoTruncation (handleNonAxfrQueryL ze.zone qn q.qtype tr
+          ⟨scanState cfg tr bufLen req (Spec.Server.hdr req 0) (((req.getD 2 0).toNat &&& 120) >>> 3)
+            (((req.getD 2 0).toNat &&& 1) != 0) q, []⟩).2.log →
+        ∀ d, Spec.specDecodeMsg b = some d →
+          d.rcode = (specResolve (specBuild eqv ⟨apex, cls, glue, []⟩ rs) (fold qn) q.qtype).rcode % 16 ∧
+          d.aa = (specResolve (specBuild eqv ⟨apex, cls, glue, []⟩ rs) (fold qn) q.qtype).aa ∧
+          d.tc = false ∧
+          All2 RRMatch (specResolve (specBuild eqv ⟨apex, cls, glue, []⟩ rs) (fold qn) q.qtype).answer d.an ∧
+          All2 RRMatch (specResolve (specBuild eqv ⟨apex, cls, glue, []⟩ rs) (fold qn) q.qtype).authority d.ns ∧
+          ∃ ar' opt, d.ar = ar' ++ opt ∧
+            All2 RRMatch (specResolve (specBuild eqv ⟨apex, cls, glue, []⟩ rs) (fold qn) q.qtype).additional ar' ∧
+            opt.length = (if (Spec.Server.specScanWith (catKind cfg) cfg.payload req).edns then 1 else 0) ∧
+            ∀ o ∈ opt, o.ty = 41 := by
+  have h12 : 12 ≤ req.size := by
+    by_cases hc : req.size < 12
+    · rw [handleMessage_short cfg tr now bufLen req hbuf hc] at hb; cases hb
+    · omega
+  have hqr : (req.getD 2 0).toNat < 128 := by
+    by_cases hc : (req.getD 2 0).toNat ≥ 128
+    · rw [handleMessage_qr cfg tr now bufLen req hbuf h12 hc] at hb; cases hb
+    · omega
+  rw [specScanWith_eq] at hv ⊢
+  simp only [show ¬ req.size < 12 by omega, show ¬ (req.getD 2 0).toNat ≥ 128 by omega, if_false] at hv ⊢
+  obtain ⟨q, qn, nx, hq0, hsq, hqn, hqw, hwl, c1, c2, c3, heq⟩ :=
+    hwc_answer_state cfg tr now bufLen req hbuf hpay h12 hreq (Spec.Server.hdr req 0)
+      (((req.getD 2 0).toNat &&& 120) >>> 3) (((req.getD 2 0).toNat &&& 1) != 0) hv
+  obtain ⟨hts, he⟩ := hwc_answer_slot cfg tr now bufLen req hbuf hpay h12 hreq (Spec.Server.hdr req 0)
+    (((req.getD 2 0).toNat &&& 120) >>> 3) (((req.getD 2 0).toNat &&& 1) != 0) hv
+  -- the catalog entry
+  unfold catKind at c3
+  rw [hqn] at c3
+  simp only at c3
+  cases hl : Catalog.lookup (mkCatalog cfg.zones) qn.labels q.qclass with
+  | none => rw [hl] at c3; cases c3
+  | some e =>
+    rw [hl] at c3
+    simp only [Option.map_some, Option.some.injEq] at c3
+    have hk : e.kind = .Loaded := by
+      cases hk : e.kind <;> rw [hk] at c3 <;> first | rfl | cases c3
+    obtain ⟨ze, hze, _, _, hsuf⟩ := ServerSafety.mkCatalog_lookup cfg.zones qn.labels q.qclass e hl
+    refine ⟨q, qn, e, ze, hq0, hqn, hl, hk, hze, ?_⟩
+    intro eqv apex cls glue rs hzb ha hnt d hd
+    obtain ⟨hawf, haeq, hnode⟩ := hcfg.zones ze (List.mem_of_getElem? hze)
+    have hz : ServerSafety.ZoneOK ze.zone := ⟨by rw [haeq]; exact ServerSafety.fold_wf _ hawf, hnode⟩
+    have hsub : ze.zone.apex <:+ fold qn := by rw [haeq]; exact hsuf
+    have hR := Rel.reachable eqv apex cls glue rs
+    have hap : ze.zone.apex = apex := by
+      rw [hzb, hR.apex]; exact (specBuild_fields eqv _ rs).1
+    obtain ⟨gS, hqrS, hvS, h3S⟩ := scanState_facts cfg tr bufLen req hbuf hpay hp16 (Spec.Server.hdr req 0)
+      (((req.getD 2 0).toNat &&& 120) >>> 3) (((req.getD 2 0).toNat &&& 1) != 0) q qn nx hsq hqn hqw hwl
+    -- the final writer
+    have hHQ := handleQuery_loaded cfg tr qn q.qtype q.qclass
+      (scanState cfg tr bufLen req (Spec.Server.hdr req 0) (((req.getD 2 0).toNat &&& 120) >>> 3)
+        (((req.getD 2 0).toNat &&& 1) != 0) q) c1 c2 e hl hk ze hze
+    have hG := good_handleNonAxfrQueryL ze.zone hz qn (parse_wf hqn) q.qtype tr hsub _ _ gS hqrS.hint
+    have hH := hdr_handleNonAxfrQueryL ze.zone hz qn (parse_wf hqn) q.qtype tr hsub _ _ gS hqrS.hint hvS
+    have hBV := bodyOf_view (qBody (some q)) (qBody_norecs _)
+      (handleNonAxfrQueryL ze.zone qn q.qtype tr
+        ⟨scanState cfg tr bufLen req (Spec.Server.hdr req 0) (((req.getD 2 0).toNat &&& 120) >>> 3)
+          (((req.getD 2 0).toNat &&& 1) != 0) q, []⟩).2.log
+    -- C05 on that state
+    have hC := C05 eqv apex cls glue rs qn q.qtype tr _ ha (by rw [← hap]; exact hz.apex_wf) (parse_wf hqn)
+      (by rw [← hap]; exact hsub) hqrS (by rw [← hzb]; exact hnt)
+    rw [← hzb] at hC
+    rw [hC.2] at hH hBV
+    -- `handle_message`
+    rw [handleMessage_eq cfg tr now bufLen req hbuf hpay h12 hqr, heq] at hb
+    rw [heq] at hts he
+    have hst : ((handleQuery cfg (some (qn, q.qtype, q.qclass)) tr >>= fun _ => (pure true : M Bool))
+        (scanState cfg tr bufLen req (Spec.Server.hdr req 0) (((req.getD 2 0).toNat &&& 120) >>> 3)
+          (((req.getD 2 0).toNat &&& 1) != 0) q)).2 =
+        (handleNonAxfrQueryL ze.zone qn q.qtype tr
+          ⟨scanState cfg tr bufLen req (Spec.Server.hdr req 0) (((req.getD 2 0).toNat &&& 120) >>> 3)
+            (((req.getD 2 0).toNat &&& 1) != 0) q, []⟩).2.w := by
+      rw [Writer.bind_apply, hHQ, ← handleNonAxfrQuery_state]
+      rcases handleNonAxfrQuery ze.zone qn q.qtype tr _ with ⟨(u | x | _), s'⟩ <;> rfl
+    rcases hh : (handleQuery cfg (some (qn, q.qtype, q.qclass)) tr >>= fun _ => (pure true : M Bool))
+        (scanState cfg tr bufLen req (Spec.Server.hdr req 0) (((req.getD 2 0).toNat &&& 120) >>> 3)
+          (((req.getD 2 0).toNat &&& 1) != 0) q) with ⟨(bb | x | _), w1⟩
+    · rw [hh] at hb hts he hst
+      simp only at hts he hst
+      subst hst
+      cases bb with
+      | false => simp only at hb; cases hb
+      | true =>
+        simp only at hb
+        rcases hf : Writer.finish _ Server.macFn with ⟨bytes, mac⟩ | x | _
+        · rw [hf] at hb
+          simp only [Out.ok.injEq, Option.some.injEq] at hb
+          subst hb
+          obtain ⟨r1, r2, r3, r4, r5, ar', opt, r6, r7, r8, r9⟩ :=
+            decoded_of_good_view _ _ _ hG hBV hts hH bytes mac hf d hd
+          refine ⟨r1, r2, r3, r4, r5, ar', opt, r6, r7, ?_, r9⟩
+          rw [r8]
+          cases hed : (specBody (catKind cfg) cfg.payload req).edns <;> rw [hed] at he <;>
+            cases hw : (handleNonAxfrQueryL ze.zone qn q.qtype tr
+              ⟨scanState cfg tr bufLen req (Spec.Server.hdr req 0) (((req.getD 2 0).toNat &&& 120) >>> 3)
+                (((req.getD 2 0).toNat &&& 1) != 0) q, []⟩).2.w.edns <;> rw [hw] at he <;> simp at he ⊢
+        · rw [hf] at hb; cases hb
+        · rw [hf] at hb; cases hb
+    · rw [hh] at hb; cases hb
+    · rw [hh] at hb; cases hb
+
+
+open QV.ServerScan QV.ServerContent in
+/-- **C05 end to end for authenticated (TSIG-signed) requests.**  As `C05_end_to_end`, for a request
+    whose scan reaches a well-formed TSIG record that the TSIG step authenticates and whose
+    end-of-message check / decision table says "a loaded zone answers": every decoding of the response
+    has the RCODE (4 bits), AA, TC = 0 and the answer and authority sections of `specResolve` on the
+    selected zone, and its additional section is `specResolve`'s followed by the OPT record (iff the
+    scan reached an OPT) and the TSIG record. -/
+theorem C05_end_to_end_signed (cfg : Cfg) (hcfg : ServerSafety.CfgWF cfg) (tr : Transport) (now bufLen : Nat)
+    (req : Bytes)
+    (hbuf : minBuf tr cfg.payload ≤ bufLen) (hpay : 512 ≤ cfg.payload) (hp16 : cfg.payload ≤ 65535)
+    (hreq : req.size ≤ Rdata.USIZE_MAX)
+    (hr : (Spec.Server.specScanWith (catKind cfg) cfg.payload req).respond = true)
+    (hv : (Spec.Server.specScanWith (catKind cfg) cfg.payload req).verdict = .tsigReached) :
+    ∃ (t : Tsig.ReadTsigRr) (mw : Bytes) (r' : Reader.Reader), r'.octets = req ∧ r'.cursor ≤ req.size ∧
+      ∀ r'' S, Server.tsigAfter cfg now t mw r' (preTsigState cfg tr bufLen req) = (.ok (some r''), S) →
+        endVerdict (catKind cfg) req.size (Spec.Server.specScanWith (catKind cfg) cfg.payload req).question
+          r'.cursor ((req.getD 2 0).toNat / 8 % 16) = .answer →
+      ∀ b, handleMessage cfg tr now bufLen req = .ok (some b) →
+        ∃ (q : Spec.DQuestion) (qn : WName) (e : Catalog.Entry Unit) (ze : ZoneEntry),
+          (Spec.Server.specScanWith (catKind cfg) cfg.payload req).question = some q ∧
+          WName.parse q.qname = some (qn, []) ∧
+          Catalog.lookup (mkCatalog cfg.zones) qn.labels q.qclass = some e ∧ e.kind = .Loaded ∧
+          cfg.zones[e.zone]? = some ze ∧
+          ∀ (eqv : Eqv) (apex : NameL.Name) (cls : Nat) (glue : GluePolicy) (rs : List Rec),
+            ze.zone = build eqv (Zone.new apex cls glue) rs → Folded apex →
+            NoTruncation (handleNonAxfrQueryL ze.zone qn q.qtype tr ⟨S, []⟩).2.log →
+            ∀ d, Spec.specDecodeMsg b = some d →
+              d.rcode = (specResolve (specBuild eqv ⟨apex, cls, glue, []⟩ rs) (fold qn) q.qtype).rcode % 16 ∧
+              d.aa = (specResolve (specBuild eqv ⟨apex, cls, glue, []⟩ rs) (fold qn) q.qtype).aa ∧
+              d.tc = false ∧
+              All2 RRMatch (specResolve (specBuild eqv ⟨apex, cls, glue, []⟩ rs) (fold qn) q.qtype).answer d.an ∧
+              All2 RRMatch (specResolve (specBuild eqv ⟨apex, cls, glue, []⟩ rs) (fold qn) q.qtype).authority d.ns ∧
+              ∃ ar' rest, d.ar = ar' ++ rest ∧
+                All2 RRMatch (specResolve (specBuild eqv ⟨apex, cls, glue, []⟩ rs) (fold qn) q.qtype).additional ar' ∧
+                rest.length = (if (Spec.Server.specScanWith (catKind cfg) cfg.payload req).edns then 1 else 0) + 1 ∧
+                ∀ o ∈ rest, o.ty = 41 ∨ o.ty = 250 := by
+  obtain ⟨t, mw, r', h1, h2, h3⟩ := signed_answer_state cfg tr now bufLen req hbuf hpay hp16 hreq hr hv
+  refine ⟨t, mw, r', h1, h2, fun r'' S hT hev b hb => ?_⟩
+  obtain ⟨q, qn, nowT, alg, key, kn, hq0, hqn, c1, c2, c3, _, _, _, _, _, _, gS, hqrS, hvS, hkeep, h4⟩ :=
+    h3 r'' S hT hev b hb
+  -- the catalog entry
+  unfold catKind at c3
+  rw [hqn] at c3
+  simp only at c3
+  cases hl : Catalog.lookup (mkCatalog cfg.zones) qn.labels q.qclass with
+  | none => rw [hl] at c3; cases c3
+  | some e =>
+    rw [hl] at c3
+    simp only [Option.map_some, Option.some.injEq] at c3
+    have hk : e.kind = .Loaded := by
+      cases hk : e.kind <;> rw [hk] at c3 <;> first | rfl | cases c3
+    obtain ⟨ze, hze, _, _, hsuf⟩ := ServerSafety.mkCatalog_lookup cfg.zones qn.labels q.qclass e hl
+    refine ⟨q, qn, e, ze, hq0, hqn, hl, hk, hze, ?_⟩
+    intro eqv apex cls glue rs hzb ha hnt d hd
+    obtain ⟨hawf, haeq, hnode⟩ := hcfg.zones ze (List.mem_of_getElem? hze)
+    have hz : ServerSafety.ZoneOK ze.zone := ⟨by rw [haeq]; exact ServerSafety.fold_wf _ hawf, hnode⟩
+    have hsub : ze.zone.apex <:+ fold qn := by rw [haeq]; exact hsuf
+    have hR := Rel.reachable eqv apex cls glue rs
+    have hap : ze.zone.apex = apex := by
+      rw [hzb, hR.apex]; exact (specBuild_fields eqv _ rs).1
+    have hHQ := handleQuery_loaded cfg tr qn q.qtype q.qclass S c1 c2 e hl hk ze hze
+    have hG := good_handleNonAxfrQueryL ze.zone hz qn (parse_wf hqn) q.qtype tr hsub _ _ gS hqrS.hint
+    have hH := hdr_handleNonAxfrQueryL ze.zone hz qn (parse_wf hqn) q.qtype tr hsub _ _ gS hqrS.hint hvS
+    have hBV := bodyOf_view (qBody (some q)) (qBody_norecs _) (handleNonAxfrQueryL ze.zone qn q.qtype tr ⟨S, []⟩).2.log
+    have hC := C05 eqv apex cls glue rs qn q.qtype tr _ ha (by rw [← hap]; exact hz.apex_wf) (parse_wf hqn)
+      (by rw [← hap]; exact hsub) hqrS (by rw [← hzb]; exact hnt)
+    rw [← hzb] at hC
+    rw [hC.2] at hH hBV
+    have hst : ((handleQuery cfg (some (qn, q.qtype, q.qclass)) tr >>= fun _ => (pure true : M Bool)) S).2 =
+        (handleNonAxfrQueryL ze.zone qn q.qtype tr ⟨S, []⟩).2.w := by
+      rw [Writer.bind_apply, hHQ, ← handleNonAxfrQuery_state]
+      rcases handleNonAxfrQuery ze.zone qn q.qtype tr _ with ⟨(u | x | _), s'⟩ <;> rfl
+    rcases hh : (handleQuery cfg (some (qn, q.qtype, q.qclass)) tr >>= fun _ => (pure true : M Bool)) S
+      with ⟨(bb | x | _), w1⟩
+    · rw [hh] at h4 hst
+      obtain ⟨hts, he⟩ := hkeep bb w1 hh
+      simp only at hst
+      subst hst
+      cases bb with
+      | false => simp only at h4; cases h4
+      | true =>
+        simp only at h4
+        rcases hf : Writer.finish _ Server.macFn with ⟨bytes, mac⟩ | x | _
+        · rw [hf] at h4
+          simp only [Out.ok.injEq, Option.some.injEq] at h4
+          subst h4
+          obtain ⟨r1, r2, r3, r4, r5, ar', rest, r6, r7, r8, r9⟩ :=
+            decoded_of_good_view' _ _ _ hG hBV hH b mac hf (finish_flags_tsig _ hG.1 _ hts b mac hf) d hd
+          refine ⟨r1, r2, r3, r4, r5, ar', rest, r6, r7, ?_, r9⟩
+          rw [r8, hts]
+          congr 1
+          cases hed : (Spec.Server.specScanWith (catKind cfg) cfg.payload req).edns <;> rw [hed] at he <;>
+            cases hw : (handleNonAxfrQueryL ze.zone qn q.qtype tr ⟨S, []⟩).2.w.edns <;> rw [hw] at he <;> simp at he ⊢
+        · rw [hf] at h4; cases h4
+        · rw [hf] at h4; cases h4
+    · rw [hh] at h4; cases h4
+    · rw [hh] at h4; cases h4
+
 
 end QV.C05
